@@ -263,15 +263,15 @@ func init() {
 	Checks["C05"] = func(c *Ctx) {
 		n5 := pick(c, 6, 8)
 		permLimit := pick(c, 4, 4)
-		c.Cov.Rule = "states = all states of the forward BFS with N<=Nmax (de-duplicated on concrete dumps); for every state and every non-empty set S of live leaves, every encoding from the closed family {direct proof in every permutation of S (|S|<=PermLimit, else sorted/reversed/rotated) with 0..2 trailing unused proof hashes, AddProof of every two-part split of S, GetProofSubset of the all-live proof} that Verify accepts is applied with k in {0,1,2} additions to fresh replays of the state's history on Stump, Pollard, full MapPollard (TR 0, 63), partial MapPollard with the leaves cached beforehand (TR 0, 63), partial MapPollard after Verify(remember) of the same encoding (TR 0, 3) and NewMapPollardFromRoots; roots and leaf count must equal the reference for alive - S plus the additions; a second pass takes the states whose history contains one serialize/restore of the forest (so that restored forests that evolved further are covered) with the direct encodings; a third pass takes structured taller states [add N][delete S, add k] (N around 8 and 16, S singles / sibling pairs / aligned subtrees and their near-complements) with every live singleton and adjacent pair; a fourth pass starts Stump and a partial MapPollard from the bare roots of accumulators with 2^5..2^63-4 leaves plus up to three added leaves; non-trivial = accepted non-canonical encodings applied"
+		c.Cov.Rule = "states = all states of the forward BFS with N<=Nmax (de-duplicated on concrete dumps); for every state and every non-empty set S of live leaves, every encoding from the closed family {direct proof in every permutation of S (|S|<=PermLimit, else sorted/reversed/rotated) with 0..2 trailing unused proof hashes, AddProof of every two-part split of S, GetProofSubset of the all-live proof} that Verify accepts is applied with k in {0,1,2} additions to fresh replays of the state's history on Stump, Pollard, full MapPollard (TR 0, 63), partial MapPollard with the leaves cached beforehand (TR 0, 63), partial MapPollard after Verify(remember) of the same encoding (TR 0, 3) and NewMapPollardFromRoots; roots and leaf count must equal the reference for alive - S plus the additions; a second pass takes the states whose history contains one serialize/restore of the forest (so that restored forests that evolved further are covered) with the direct encodings; an undo pass does the same for the states whose history contains one Undo of the newest block (forests that were rolled back and evolved further); a third pass takes structured taller states [add N][delete S, add k] (N around 8 and 16, S singles / sibling pairs / aligned subtrees and their near-complements) and rolled-back states [add N][delete S, add k][delete T, add j][undo] (every S, T, k<=2, j<=3) with every live singleton and adjacent pair; a fourth pass starts Stump and a partial MapPollard from the bare roots of accumulators with 2^5..2^63-4 leaves plus up to three added leaves; non-trivial = accepted non-canonical encodings applied"
 		c.Cov.Bound["Nmax"] = n5
 		c.Cov.Bound["PermLimit"] = permLimit
 		c.Cov.Bound["instances"] = len(encInsts)
 		var accepted, rejected, applied int64
 		var sampled int32
 		var ntasks int
-		pass := func(nmax, rtBud int, instIdx []int, assembled bool) {
-			collect := &HistFamily{Nmax: nmax, RTBud: rtBud, Insts: []InstCfg{{Kind: "pollard"}, {Kind: "map", Full: true, TR: 0}, {Kind: "map", Full: false, TR: 0, Mode: "all"}}, Or: HistOracle{Prop: "C05"}}
+		pass := func(nmax, rtBud, undoBud int, instIdx []int, assembled bool) {
+			collect := &HistFamily{Nmax: nmax, RTBud: rtBud, UndoBud: undoBud, Insts: []InstCfg{{Kind: "pollard"}, {Kind: "map", Full: true, TR: 0}, {Kind: "map", Full: false, TR: 0, Mode: "all"}}, Or: HistOracle{Prop: "C05"}}
 			type task struct {
 				hist []Op
 				s    ref.State
@@ -285,6 +285,9 @@ func init() {
 				md := n.Model.(*histModel)
 				if rtBud > 0 && !md.hasRT {
 					return // covered by the pass without restore
+				}
+				if undoBud > 0 && !md.hasUndo {
+					return // covered by the pass without undo
 				}
 				for _, set := range subsets(md.s.Live(), false) {
 					tasks = append(tasks, task{n.Hist, md.s, set})
@@ -363,12 +366,17 @@ func init() {
 		for i := range all {
 			all[i] = i
 		}
-		pass(n5, 0, all, true)
+		pass(n5, 0, 0, all, true)
 		// histories that contain one serialize/restore of the forest (Pollard, MapPollard), so
 		// that an accepted block is also applied to restored forests that evolved further
 		nrt := pick(c, 4, 5)
 		c.Cov.Bound["restore_pass.Nmax"] = nrt
-		pass(nrt, 1, []int{1, 2, 4, 6}, false)
+		pass(nrt, 1, 0, []int{1, 2, 4, 6}, false)
+		// histories that contain one Undo of the newest block (Pollard, MapPollard), so that an
+		// accepted block is also applied to forests that were rolled back and evolved further
+		nun := pick(c, 5, 6)
+		c.Cov.Bound["undo_pass.Nmax"] = nun
+		pass(nun, 0, 1, []int{1, 2, 3, 4, 6}, false)
 		// structured taller states: [add N][delete S, add k] with S from a closed family, then every
 		// live singleton and adjacent pair with the direct encodings (rows 3-4, forests that grow
 		// past a power of two after deletions left gaps)
@@ -413,6 +421,28 @@ func init() {
 						h := []Op{{Kind: "block", Adds: N}, {Kind: "block", Dels: S, Adds: k}}
 						st := ref.State{}.Apply(nil, N).Apply(S, k)
 						tts = append(tts, ttask{h, st})
+					}
+				}
+			}
+			// rolled-back structured states: [add N][delete S, add k][delete T, add j][undo] for every
+			// non-empty S, every non-empty T of the leaves live after the second block, k 0..2, j 0..3
+			// (the undone block empties trees whose leaves moved up earlier and grows the forest)
+			undoNs := pick(c, []int{4}, []int{3, 4, 5, 6})
+			c.Cov.Bound["structured_undo_states.N"] = fmt.Sprint(undoNs)
+			for _, N := range undoNs {
+				all := make([]int, N)
+				for i := range all {
+					all[i] = i
+				}
+				for _, S := range subsets(all, false) {
+					for k := 0; k <= 2; k++ {
+						st := ref.State{}.Apply(nil, N).Apply(S, k)
+						for _, T := range subsets(st.Live(), false) {
+							for j := 0; j <= 3; j++ {
+								h := []Op{{Kind: "block", Adds: N}, {Kind: "block", Dels: S, Adds: k}, {Kind: "block", Dels: T, Adds: j}, {Kind: "undo"}}
+								tts = append(tts, ttask{h, st})
+							}
+						}
 					}
 				}
 			}
